@@ -210,16 +210,35 @@ pub fn run(ctx: &Ctx) -> Report {
                 rep.bump("c19/stopped_by_deadline");
                 break;
             }
-            let (case, solo) = chain_history(seed, i, chain_len);
+            // building and driving a fresh instance never panics outside of a step (steps catch what the code under
+            // test throws by design): a panic from the repository's code here is one more way in which an execution
+            // differs from the others that did not panic
+            macro_rules! fresh {
+                ($what:expr, $e:expr) => {
+                    match catch(|| $e) {
+                        Ok(v) => v,
+                        Err(p) => {
+                            if panic_in_repo(&p) {
+                                rep.violate("C19", "fresh-instance-panics-where-earlier-identical-instances-worked", p.clone(), json!({"engine": "e7", "mode": $what, "history": i, "seed": seed, "panic": p}));
+                            } else {
+                                rep.inconclusive.push(format!("C19 {} of history {}: {}", $what, i, p));
+                            }
+                            i += ctx.workers as u64;
+                            continue;
+                        }
+                    }
+                };
+            }
+            let (case, solo) = fresh!("generation", chain_history(seed, i, chain_len));
             let d = sha(&solo);
-            let twin = chain_replay(&case);
+            let twin = fresh!("twin-run", chain_replay(&case));
             rep.evaluations += 1;
             rep.bump("c19/chain/twin_compared");
             rep.add("c19/chain/transcript_records_compared", solo.len() as u64);
             if twin != solo {
                 rep.violate("C19", "twin-instance-transcript-differs", first_diff(&solo, &twin), json!({"engine": "e7", "mode": "twin", "history": i, "case": case}));
             }
-            let (ta, tb, noise) = chain_interleaved(&case, derive(seed, "noise", w as u64, i));
+            let (ta, tb, noise) = fresh!("interleaved-run", chain_interleaved(&case, derive(seed, "noise", w as u64, i)));
             rep.bump("c19/chain/interleaved_compared");
             rep.add("c19/chain/unrelated_steps_interleaved", noise);
             rep.note_set("c19/interleavings", format!("{}:{}", i, noise));
